@@ -4,6 +4,8 @@
 # the named checks (quick tier) against the scratch copy.  Prints a summary; keeps nothing.
 ID=$1; V=$2; shift 2; CHECKS=${@:-$ID}
 SRC=/tmp/seed-$ID-out/$V
+[[ $V == c ]] && SRC=/tmp/seed2-$ID-out/a
+[[ $V == d ]] && SRC=/tmp/seed2-$ID-out/b
 [[ -d /verif/seeded/$ID-$V ]] && SRC=/verif/seeded/$ID-$V
 D=$(mktemp -d /tmp/vf-seed-XXXXXX)
 rsync -a --exclude .git --exclude __pycache__ /repo/ "$D/"
